@@ -364,6 +364,14 @@ def check(run):
                 def rel(x):
                     return os.path.relpath(x, cwd) if isinstance(x, str) and os.path.isabs(x) and os.path.exists(x) else x
                 argv = [rel(a) for a in argv]
+            if k % 5 == 3 and plan['given']:
+                # typed in another directory than the input's, the output given as a bare / relative name: it is resolved
+                # against the current directory like any path on a command line
+                cwd = os.path.join(run.scratch, 'dir4', 'cwd_%d' % k)
+                os.makedirs(os.path.join(cwd, 'out'), exist_ok=True)
+                relname = 'result_%d.gro' % k if k % 2 else os.path.join('out', 'result_%d.gro' % k)
+                plan['outp'] = os.path.join(cwd, relname)
+                argv = [relname if a == outp_given else a for a in argv] if (outp_given := argv[argv.index('-o') + 1]) else argv
             plan['job'] = [{'id': 'm', 'kind': 'main', 'argv': argv, 'seed': plan['seed'], 'steps_factor': steps, 'cwd': cwd}]
         plans.append(plan)
     todo = [p_ for p_ in plans if 'job' in p_]
